@@ -21,12 +21,15 @@ REG.bounded_check("C13.two_routes", ["C13"], "C13.bounded",
 REG.bounded_check("C11.reference_projection", ["C11"], "pyanalyze.node_visitor.BaseNodeVisitor.show_error",
                   covers=["BaseNodeVisitor.show_error / has_file_level_ignore / get_unused_ignores (cross-check of the proved kernels)"],
                   bound="files of <= 3 lines over 8 line shapes x line numbers x 3 codes x obey_ignore x settings")
-REG.bounded_check("C16.step", ["C16"], "lemma.add_ignores_step",
-                  covers=["BaseNodeVisitor._apply_changes_to_lines", "show_error add_ignores replacement (cross-check of the proved kernels)"],
-                  bound="files of <= 4 lines, every single-line replacement with 0..2 additions; add-ignores step on files of <= 3 lines over 4 line shapes")
+REG.bounded_check("C16.step_and_autofix", ["C16"], "C16.bounded",
+                  covers=["BaseNodeVisitor._apply_changes_to_lines / show_error add_ignores (cross-check)", "replace_node / NodeTransformer / decompile", "fix producers: unused variable removal, use_fstrings"],
+                  bound="files of <= 4 lines, every single-line replacement with 0..2 additions; add-ignores step on files of <= 3 lines over 4 line shapes; 6 programs with fixable diagnostics: fix-apply-recheck to the fixpoint, parse, no new diagnostics, same result of a sample call")
 REG.bounded_check("C02.narrowing", ["C02"], "pyanalyze.stacked_scopes.Constraint.apply_to_value",
                   covers=["Constraint.apply_to_value (cross-check)", "Value.is_assignable on literals"],
                   bound="12 objects x 14 values x 11 classes x both polarities (isinstance), 5 singletons (is); known findings D2/D3 skipped")
-REG.bounded_check("C15.solutions", ["C15"], "pyanalyze.typevar.solve",
-                  covers=["typevar.solve (cross-check)", "Value.is_assignable on the vocabulary"],
-                  bound="bound lists of length <= 3 over 6 static values x {lower, upper} + one IsOneOf; known finding D11 skipped")
+REG.bounded_check("C15.solutions", ["C15"], "C15.bounded",
+                  covers=["typevar.solve (cross-check)", "TypeVarValue.can_assign / can_be_assigned / get_inherent_bounds", "resolve_bounds_map", "Signature.check_call_with_bound_args (TypeVar part)"],
+                  bound="bound lists of length <= 3 over 6 static values x {lower, upper} + one IsOneOf (known finding D11 skipped); 15 generic calls (bounded / constrained TypeVar in a parameter, only in a callback, in both) through the checker")
+REG.bounded_check("C18.layering", ["C18"], "C18.bounded",
+                  covers=["Options.from_option_list (sorted by sort_key)", "parse_config_file / extend_config", "Options.for_module / get_value_for", "NameCheckVisitor.prepare_constructor_kwargs"],
+                  bound="two chained config files x every subset of <= 3 of {command line, main a.b / a / top-level, base a.b / a / top-level} x extend_config first/last x 5 module paths, integer and list option; falsy and truthy command-line values over a config file")
